@@ -63,6 +63,7 @@ fn leaves() -> Vec<Value> {
         Value::Number(f64::NAN),
         Value::Number(-0.0),
         Value::Number(f64::NEG_INFINITY),
+        Value::Number(5e-324), Value::Number(-f64::MIN_POSITIVE / 2.0), Value::Number(f64::MIN_POSITIVE), Value::Number(f64::MAX),
         Value::String("a".to_symbol()),
         Value::String("héllo→".to_symbol()),
         Value::String("".to_symbol()),
@@ -481,6 +482,10 @@ fn branch_state_programs() -> Vec<(String, Vec<f64>, String)> {
     // a delay whose maximum is not integral, followed by another cell: the run-time length must be the published one
     v.push(("fn cnt(){ self + 1.0 }\nfn dsp(){\n  delay(2.5, 100.0, 1.0)*0.0 + cnt()\n}\n".to_string(), vec![1.0, 2.0, 3.0, 4.0, 5.0, 6.0, 7.0, 8.0], "delay with a fractional maximum in front of a counter".to_string()));
     v.push(("fn cnt(){ self + 1.0 }\nfn dsp(){\n  delay(3.75, 9.0, 2.0)*0.0 + cnt() + delay(1.5, 7.0, 1.0)*0.0\n}\n".to_string(), vec![1.0, 2.0, 3.0, 4.0, 5.0, 6.0, 7.0, 8.0], "two delays with fractional maxima around a counter".to_string()));
+    // `self` is an aggregate with a sum-typed member (tag + payload words), another cell behind it: the published size of the
+    // feed cell must be the run-time size of the value
+    v.push(("type Opt = Nothing | Just(float)\nfn hold(x)->(float,Opt){\n  let (n, prev) = self\n  let p = match prev {\n    Nothing => 0.0,\n    Just(v) => v\n  }\n  (n + p, Just(x))\n}\nfn dsp(){\n  let (a,_o) = hold(3.0)\n  let m = mem(a)\n  a + m\n}\n".to_string(), vec![0.0, 3.0, 9.0, 15.0], "tuple self with a sum-typed member in front of a mem".to_string()));
+    v.push(("type Opt = Nothing | Just(float)\nfn hold(x)->{n:float, last:Opt}{\n  let s = self\n  let p = match s.last {\n    Nothing => 0.0,\n    Just(v) => v\n  }\n  {n = s.n + p, last = Just(x)}\n}\nfn dsp(){\n  let r1 = hold(3.0)\n  let r2 = hold(5.0)\n  r1.n + r2.n * 100.0\n}\n".to_string(), vec![0.0, 503.0, 1006.0, 1509.0], "two instances of a record self with a sum-typed field".to_string()));
     v
 }
 fn branch_state_programs0() -> Vec<(String, Vec<f64>, String)> {
@@ -684,6 +689,10 @@ fn boxed_programs() -> Vec<(&'static str, String)> {
     for (name, decl, body) in shapes {
         v.push((name, format!("{decl}\nfn dsp() -> float {{\n {body}\n 1.0\n}}\n")));
     }
+    // a local initialised from a projection / a field access / a variable (each takes references exactly once)
+    v.push(("let from a tuple projection", "type rec List = Nil | Cons(float, List)\nfn dsp() -> float {\n    let t = (Cons(1.0, Nil), 2.0);\n    let c = t.0;\n    t.1\n}\n".to_string()));
+    v.push(("let from a record field", "type rec List = Nil | Cons(float, List)\nfn dsp() -> float {\n    let r = {l = Cons(1.0, Nil), v = 2.0};\n    let c = r.l;\n    r.v\n}\n".to_string()));
+    v.push(("let from a variable", "type rec List = Nil | Cons(float, List)\nfn dsp() -> float {\n    let a = (Cons(1.0, Nil), 3.0);\n    let b = a;\n    b.1\n}\n".to_string()));
     // closures that are still open when their frame returns -- through Return (value) and through Return0 (unit frame)
     v.push(("open closure in a value-returning frame", "fn scale(k){\n    (|y| { y*k })(4.0)\n}\nfn dsp() -> float {\n    scale(2.0)\n}\n".to_string()));
     v.push(("open closure applied in a unit-returning frame", "let acc = 0.0\nfn bump(k){\n    (|y| { acc = acc + y*k })(1.0)\n}\nfn dsp() -> float {\n    bump(2.0)\n    acc\n}\n".to_string()));
@@ -766,6 +775,18 @@ fn cst_corpus() -> Vec<String> {
         out.push(format!("fn f({f}){{0}}"));
         out.push(format!("let y = g({f})"));
         out.push(format!("match v {{ {f} => 1 }}"));
+    }
+    // type annotations: fragments of up to 5 tokens in the two type positions (unions, tuples, function types, parentheses)
+    let talpha = ["float", "(", ")", "|", "->", ",", "x"];
+    let mut tfront: Vec<String> = vec![String::new()];
+    for _ in 0..5 {
+        let mut next = vec![];
+        for s in &tfront { for a in talpha { next.push(if s.is_empty() { a.to_string() } else { format!("{s} {a}") }); } }
+        for f in &next {
+            out.push(format!("let a:{f} = 1"));
+            out.push(format!("fn f(a:{f}){{a}}"));
+        }
+        tfront = next;
     }
     out
 }
